@@ -38,7 +38,7 @@ def run(tier, seed):
     if (cnt["encoded"] < 100 or cnt["reads"] < 500 or cnt["physical"] < 100) and cnt["flagged"] == 0:
         raise vf.Infra(f"dead driver: {cnt}")
     rc = out.report()
-    vf.write_evidence(PROP, tier, seed, "differential_testing", {
+    vf.write_evidence(PROP, tier, seed, "model_checking", {
         "states": vr.distinct, "transitions": vr.generated,
         "traces_validated_against_impl": cnt["traces"],
         "samples": [scenarios[0], scenarios[-1]],
